@@ -45,7 +45,7 @@ def bounds(tier):
 
 
 def shards(tier):
-    return [("first", i, j) for i in range(len(CAT)) for j in range(len(CAT))] + [("short", 0)]
+    return [("first", i, j) for i in range(len(CAT)) for j in range(len(CAT))] + [("short", 0), ("two_docs", 0)]
 
 
 def strip1(v):
@@ -156,7 +156,55 @@ def check_doc(ids, sep, acc, case=None):
             bad("strings_dict_is_the_live_map", None, sorted(lib.strings_dict), sorted(live_s))
 
 
+def check_two_docs(acc):
+    """Document B parsed into the library that already holds document A (optionally after a rejected, rolled-back
+    replace): the library is what parsing A+B in one go gives - B's holders of keys A already holds are flagged."""
+    docs = [ids for n in (1, 2) for ids in itertools.product(range(len(CAT)), repeat=n)]
+    for a in docs:
+        for b in docs:
+            if CAT[a[-1]][0] == "comment" and CAT[b[0]][0] == "comment":
+                continue
+            if any(CAT[x][0] == "comment" and CAT[y][0] == "comment" for x, y in list(zip(a, a[1:])) + list(zip(b, b[1:]))):
+                continue
+            ta = "\n".join(CAT[i][-1] for i in a)
+            tb = "\n".join(CAT[i][-1] for i in b)
+            for with_replace in (False, True):
+                case = {"two_docs": [list(a), list(b)], "rolled_back_replace": with_replace}
+                acc.trace(3)
+                acc.case(nontrivial_key=("two", a, b, with_replace))
+                try:
+                    lib = bibtexparser.parse_string(ta, parse_stack=[])
+                    if with_replace:
+                        ents = lib.entries
+                        if len(ents) >= 2 and ents[0].key != ents[1].key:
+                            try:
+                                lib.replace(ents[0], Entry(ents[0].entry_type, ents[1].key, []))
+                            except ValueError:
+                                pass
+                        strs = [x for x in lib.blocks if type(x) is String]
+                        if len(strs) >= 2:
+                            try:
+                                lib.replace(strs[0], String(strs[1].key, "v"))
+                            except ValueError:
+                                pass
+                    lib = bibtexparser.parse_string(tb, parse_stack=[], library=lib)
+                    one = bibtexparser.parse_string(ta + "\n" + tb, parse_stack=[])
+                except Exception as e:
+                    acc.exception(e, case, "parse_string(library=...)")
+                    continue
+                sig = lambda L: [(type(x).__name__, getattr(x, "key", None), x.raw) for x in L.blocks]
+                acc.step(("two", a, b), with_replace, tuple(x[0] for x in sig(lib)))
+                if sig(lib) != sig(one) or sorted(lib.entries_dict) != sorted(one.entries_dict) or sorted(lib.strings_dict) != sorted(one.strings_dict):
+                    acc.violation(
+                        {"oracle": "second_document_into_same_library", "rolled_back_replace": with_replace},
+                        {"case": case, "observed": sig(lib), "expected": sig(one)},
+                        size=len(a) + len(b),
+                    )
+
+
 def run_shard(shard, tier, acc):
+    if shard[0] == "two_docs":
+        return check_two_docs(acc)
     maxb = 4 if tier == "quick" else 5
     if shard[0] == "short":
         for n in (1,):
@@ -173,6 +221,8 @@ def run_shard(shard, tier, acc):
 
 
 def replay(case, acc):
+    if "two_docs" in case:
+        return check_two_docs(acc)
     check_doc(tuple(case["ids"]), case["sep"], acc, case)
 
 
